@@ -14,7 +14,10 @@ def main() -> int:
         devnull = os.open(os.devnull, os.O_WRONLY)
         os.dup2(devnull, 2)
     os.environ.setdefault("TAWAZI_VERIF", "1")
+    from . import cfgvariant
+    cfgvariant.pre_import()
     import tawazi
+    cfgvariant.post_import()
 
     repo = os.environ.get("VERIF_REPO", "/repo")
     if not os.path.realpath(tawazi.__file__).startswith(os.path.realpath(repo) + "/"):
@@ -25,6 +28,7 @@ def main() -> int:
     mod = importlib.import_module(f"twzmc.checks.{check_id.lower()}")
     budget = float(os.environ.get("VERIF_BUDGET_S", mod.BUDGET[tier]))
     acc = Acc(check_id, k, n, budget)
+    acc.cfg_variant = cfgvariant.variant()
     status = "ok"
     err = ""
     from .acc import StopShard
